@@ -366,7 +366,7 @@ theorem direct_path_indices_exact (i len : Nat) (hi : i < 2 ^ 63) (hlen : len â‰
     leaf, that block's root in the current leaf list, and nothing else.) -/
 theorem batch_mutate_leaf_and_update_mps_spec : batch_mutate_leaf_and_update_mps_spec_statement := by
   intro D _ H g n ms lis hlis hms hnd hn
-  exact batchMutateLeafAndUpdateMps_spec H g n ms lis hlis hms hnd hn
+  exact TF.MmrBM.batchMutateLeafAndUpdateMps_spec H g n ms lis hlis hms hnd hn
 example : ([(0, 7), (2, 9)] : List (Nat Ã— Nat)).map (Â·.1) |>.Nodup := by decide
 
 end TF.C05
